@@ -21,6 +21,19 @@ CLAIMS = {
             "(exhaustive in the thorough tier) attribute space and multi-run values is validated by TLC against the "
             "stream terminal. Complete for single runs; concatenation follows from RunNeutral.",
             TRUST + "SGR semantics per ECMA-48 as written in Sgr.tla.", "5/C01"),
+    "C06": ("TLA+ value-algebra spec (PyStr/FmtAbs/FmtImpl): TLC model-checks Impl=>Abs over bounded layouts; TLC trace "
+            "validation of bounded-exhaustive executions of the real operators",
+            "Bounded-exhaustive: every layout of <=2 (quick) / <=3 (thorough) runs x every slice bound pair, index, repeat "
+            "count and operand pair is executed on the real operators and each recorded result is validated by TLC against "
+            "Python's str semantics written in TLA+ (PyStr.tla); the implementation-shaped run walk is model-checked "
+            "against the same clauses.",
+            TRUST, "5/C06"),
+    "C09": ("TLA+ splice spec (FmtAbs.AbsSplice / FmtImpl.ImplSplice per-run case split): TLC design check + TLC trace "
+            "validation of bounded-exhaustive real splice/append calls",
+            "Every alignment of start/end with every run boundary for all layouts of <=2/<=3 runs and a pool of new values "
+            "is executed on the real splice/append; TLC validates result cells, len/.s consistency and operand immutability; "
+            "the per-run case split is model-checked against Take/new/Drop.",
+            TRUST, "5/C09"),
 }
 
 NOT_BUILT = "check not built yet at this commit (planned with the same TLA+ technique, see DESIGN.md section 5)"
